@@ -13,7 +13,9 @@ from .world import World
 
 KEYS = ['a', 'b', 'ab', {'b': '61'}, 1, {'f': '1.0'}, {'f': '2.5'}, 0, {'f': '-0.0'}, {'i': str(2 ** 63 - 1)},
         {'i': str(2 ** 63)}, None, True, {'t': [1, 'x']}, {'pkl': [{'t': [1, 'x']}, 5]}, '', {'b': ''}, 'é ',
-        'a\x00b', 'a\x00', {'b': '6100'}, 'k' * 3000, {'i': str(-2 ** 63)}, {'f': '1e300'}, -1]
+        'a\x00b', 'a\x00', {'b': '6100'}, 'k' * 3000, {'i': str(-2 ** 63)}, {'f': '1e300'}, -1,
+        # one text in two Unicode spellings (composed / decomposed), and a compatibility character: different keys
+        'caf\u00e9', 'cafe\u0301', '\u212b', '\u00c5']
 SMALL_VALUES = [0, 1, -7, {'f': '1.5'}, {'f': '-0.0'}, {'f': 'inf'}, 'v', 'text\r\nline', {'b': '0001ff'}, None, True,
                 {'t': [1, None, 'x']}, {'l': [1, 2, 3]}, {'d': [['k', 1]]}, {'i': str(2 ** 70)}, '',
                 {'sub': ['str', 'red']}, {'sub': ['bytes', {'b': '00ff'}]}, {'sub': ['int', 7]}, {'sub': ['float', {'f': '1.5'}]}]
